@@ -21,6 +21,7 @@
 package ipv4
 
 import (
+	"math"
 	"log"
 	"sync/atomic"
 
@@ -124,6 +125,11 @@ func (e *endpoint) MaxHeaderLength() uint16 {
 func (e *endpoint) WritePacket(r *stack.Route, hdr buffer.Prependable, payload buffer.VectorisedView,
 	protocol tcpip.TransportProtocolNumber, ttl uint8) *tcpip.Error {
 	// 预留ip报文的空间 在传输层头部加上ip头最少20字节预留
+	// The total length field is 16 bits wide: refuse what cannot be described
+	// instead of emitting a packet with a wrapped length.
+	if hdr.UsedLength()+payload.Size()+header.IPv4MinimumSize > math.MaxUint16 {
+		return tcpip.ErrMessageTooLong
+	}
 	ip := header.IPv4(hdr.Prepend(header.IPv4MinimumSize))
 	length := uint16(hdr.UsedLength() + payload.Size())
 	id := uint32(0)
